@@ -2,3 +2,5 @@
 pub mod util;
 pub mod worker;
 pub mod h2;
+pub mod c12kit;
+pub mod cfgmodel;
